@@ -538,6 +538,9 @@ func (b *batch) explore() {
 				switch c.Kind {
 				case "watchdog":
 					b.watchdog++
+					if d := os.Getenv("VERIF_KEEP_WATCHDOG"); d != "" {
+						os.WriteFile(fmt.Sprintf("%s/watchdog-%d-%d.txt", d, j, last), []byte(stderr), 0o644)
+					}
 				case "exit":
 					if code == 4 {
 						break // livelock in gldap: the worker wrote the violation itself
